@@ -114,6 +114,11 @@ def init_worker(*props):
 
 
 def run_case(case):
+    if case.get("engine") == "S":
+        from vf import hourly_size, worlds
+
+        worlds.uninstall()
+        return hourly_size.run_case(case)
     if case.get("engine") == "F":
         from vf import file_runs, worlds
 
@@ -156,6 +161,11 @@ def main_for(prop, run: core.Run, rule_extra: str, require=(), only=None):
                   for mth, how in ((("nearsquare", "lower"), ("rectangle", "capital")) if run.tier == "quick" else
                                    [(mth, how) for mth in ("nearsquare", "rectangle", "birectangle", "bizoned") for how in ("upper", "lower", "capital", "mixed")])]
         run.drive(fcases, family="F", init_args=(prop, "B"), chunksize=1)
+    if prop == "C05" and (not only or "S" in only):
+        # sizing one real exchanger with the hourly and with the hybrid time step: the height is a root of the excess of THAT method
+        scases = [{"engine": "S", "method": mth, "N": n, "scale": sc, "mirror": mir} for mth in ("hourly", "hybrid")
+                  for n, sc, mir in (((4, 0.2, False), (1, 0.045, True)) if run.tier == "quick" else ((4, 0.2, False), (1, 0.045, True), (4, 0.28, True), (9, 0.5, False), (4, 0.02, False), (2, 0.6, False)))]
+        run.drive(scases, family="S", init_args=(prop, "B"), chunksize=1)
     rule = (
         "one evaluation = one complete GHEManager.find_design() of the real search code over a fake-physics world "
         "(families A1 monotone thresholds (A1Z: a temperature limit of exactly 0), A7 reconfiguration histories on one manager, A8 narrow / empty spacing windows on a lot lattice, A1R excess rising with height, A1E a candidate missing / meeting the limit by 0.05 mK, A2 sign patterns, A3 sign x rank, A4 nested lists, A5 real candidate lists and A6 the real RowWise "
